@@ -153,6 +153,55 @@ def _alloc_region_table(ctx, m, fn):
     return out, n_ret
 
 
+def _finalize_table(ctx, m):
+    """SoCBusHandler.do_finalize interpreted exactly (lxs/pyconst.py; the interconnect classes are modelled as constructors that
+    record their arguments) on buses of 1..3 regions with every combination of decode flags and 1..2 masters: a region whose
+    decoder is disabled matches every address, so next to any other region it must be refused; otherwise one interconnect over all
+    masters and all slaves is built.  [(kind, text)]"""
+    from .. import pyconst
+    from ..pyconst import NS, Native, Tok
+    import itertools
+    fn = m.method("SoCBusHandler", "do_finalize")
+    silent = Native(lambda *a, **k: None)
+    out, n_ev = [], 0
+    for k in (1, 2, 3):
+        for decs in itertools.product((True, False), repeat=k):
+            for nm in (1, 2):
+                for kind in ("shared", "crossbar"):
+                    built = []
+
+                    def mk(*a, built=built, **kw):
+                        built.append(kw)
+                        return NS(__cls__=("Interconnect",))
+                    regions = {f"r{i}": NS(origin=0x1000 * (i + 1), size=0x1000, size_pow2=0x1000, decode=d, cached=True, linker=False,
+                                           decoder=Native(lambda bus, i=i: ("decoder", i))) for i, d in enumerate(decs)}
+                    me = NS(standard="wishbone", masters={f"m{i}": Tok("m", i) for i in range(nm)},
+                            slaves={n_: Tok("s", i) for i, n_ in enumerate(regions)}, regions=regions, io_regions={}, interconnect=kind,
+                            interconnect_register=True, timeout=100, data_width=32, address_width=32,
+                            logger=NS(info=silent, error=silent, warning=silent), _interconnect=None)
+                    wb = NS(InterconnectPointToPoint=Native(mk), InterconnectShared=Native(mk), Crossbar=Native(mk))
+                    ax = NS(AXILiteInterconnectPointToPoint=Native(mk), AXIInterconnectPointToPoint=Native(mk), AXILiteInterconnectShared=Native(mk),
+                            AXIInterconnectShared=Native(mk), AXILiteCrossbar=Native(mk), AXICrossbar=Native(mk))
+                    try:
+                        got = pyconst.call(fn, {"self": me}, consts={"wishbone": wb, "axi": ax})
+                    except pyconst.Unknowable as ex:
+                        ctx.need(False, f"SoCBusHandler.do_finalize cannot be interpreted on a constant bus description ({ex})")
+                    n_ev += 1
+                    what = f"{nm} master(s), regions with decode = {list(decs)}, {kind}"
+                    if k > 1 and not all(decs):
+                        if got[0] != "raise":
+                            out.append(("decode", f"{what}: built although a region without address decoding sits next to other regions: every "
+                                                  f"address of the others selects two slaves"))
+                    elif got[0] != "return" or len(built) != 1:
+                        out.append(("built", f"{what}: {'refused' if got[0] == 'raise' else str(len(built)) + ' interconnects built'}"))
+                    elif k > 1 or nm > 1:
+                        kw = built[0]
+                        if len(kw.get("masters") or []) != nm or len(kw.get("slaves") or []) != k:
+                            out.append(("built", f"{what}: interconnect over {len(kw.get('masters') or [])} master(s) and {len(kw.get('slaves') or [])} slave(s)"))
+    ctx.analysed["paths"] += n_ev
+    return out
+
+
 def run(ctx):
     m = ctx.mod(SOC)
     ctx.rule("A1", "commit => validated: on every path a store into self.regions / self.io_regions / self.locs is covered "
@@ -287,6 +336,14 @@ def run(ctx):
                        ("outside", "returned candidate lies inside the search space: an IO region when uncached, the address space otherwise")):
         bad = [d for d in dev if d[0] == kind]
         ctx.ob("A1", SOC, "SoCBusHandler.alloc_region", role, not bad, "" if not bad else f"{bad[0][1]} ({len(bad)} of the memory maps)", fn)
+
+    # ================= A1: do_finalize (decision table by interpretation)
+    dev = _finalize_table(ctx, m)
+    for kind, role in (("decode", "a region with its decoder disabled is refused next to any other region"),
+                       ("built", "otherwise one interconnect over all masters and all slaves is built")):
+        bad = [d for d in dev if d[0] == kind]
+        ctx.ob("A1", SOC, "SoCBusHandler.do_finalize", role, not bad, "" if not bad else f"{bad[0][1]} ({len(bad)} of the bus descriptions)",
+               m.method("SoCBusHandler", "do_finalize"))
 
     # ================= A1/A3: SoCLocHandler.add / alloc
     fn = m.method("SoCLocHandler", "add")
